@@ -35,7 +35,8 @@ func RunInit(args []string, opts GlobalOptions) error {
 	if err := os.MkdirAll(target, 0755); err != nil {
 		return err
 	}
-	plansPath := filepath.Join(target, plansFileName)
+	// Re-running init on a legacy repo must keep using its events.jsonl.
+	plansPath := getEventsPath(target)
 	lockPath := filepath.Join(target, "lock")
 	if err := ensureFileExists(plansPath, 0644); err != nil {
 		return err
